@@ -3,7 +3,9 @@
 # Rebuilds everything from /repo's current working tree (Go's build cache makes
 # unchanged stages cheap), then runs the check.
 set -u
-cd /verif
+# The tree this script lives in (/verif, or a snapshot of it under vp run).
+export VERIF_ROOT="$(cd "$(dirname "${BASH_SOURCE[0]}")" && pwd)"
+cd "$VERIF_ROOT"
 export GOFLAGS=-mod=mod GOPROXY=off GOSUMDB=off GOTOOLCHAIN=local
 export GOCACHE=${GOCACHE:-/root/.cache/go-build}
 mkdir -p work bin
@@ -11,10 +13,10 @@ mkdir -p work bin
 # Overlay: inject hook files (build tag verif) into lox packages; /repo is untouched.
 cat > work/overlay.json <<JSON
 {"Replace": {
-  "/repo/internal/codegen/zz_verif_hook.go": "/verif/hooks/codegen_hook.go"
+  "/repo/internal/codegen/zz_verif_hook.go": "$VERIF_ROOT/hooks/codegen_hook.go"
 }}
 JSON
-BUILD="go build -tags verif -overlay /verif/work/overlay.json"
+BUILD="go build -tags verif -overlay $VERIF_ROOT/work/overlay.json"
 
 fail_build() {
   echo "HARNESS-ERROR: build failed at stage $1 (not a property violation)" >&2
@@ -32,7 +34,7 @@ $BUILD -o bin/loxmc ./cmd/loxmc || fail_build loxmc
 if [ "${1:-}" = "C13" ] || [ "${1:-}" = "setup" ]; then
   $BUILD -o bin/maprewrite ./cmd/maprewrite || fail_build maprewrite
   ./bin/maprewrite work/maporder >/dev/null || fail_build maprewrite-run
-  go build -tags "verif maporder" -overlay /verif/work/maporder/overlay.json -o bin/loxmc-maporder ./cmd/loxmc || fail_build loxmc-maporder
+  go build -tags "verif maporder" -overlay $VERIF_ROOT/work/maporder/overlay.json -o bin/loxmc-maporder ./cmd/loxmc || fail_build loxmc-maporder
 fi
 
 if [ "${1:-}" = "setup" ]; then
